@@ -161,3 +161,8 @@ pub fn replay(case: &Value) -> Result<(), String> {
     let r = case["right"].as_str().ok_or("right")?;
     with_variant!(v, rs(l, r))
 }
+
+/// The same alphabet for the configuration-matrix transcripts (lenient builds).
+pub fn string_alphabet_lenient<V: Variant>() -> Vec<String> {
+    string_alphabet::<V>()
+}
